@@ -38,7 +38,7 @@ def run(env, res):
                 'yaml layout: flow style, JSON, first step on line 1, other indentation); a case is '
                 'non-trivial when the model accepts it and it terminates; distinct by canonical program text')
     directed = [('c07', fo.c07_family, env.n(150, 100000)), ('c06', fo.c06_family, env.n(100, 2000)), ('c01-straight', fo.c01_family, env.n(100, 2000))]
-    flowcheck.run_streams(env, res, directed, env.n(600, 25000), weights={'fail': 7, 'call': 3},
+    flowcheck.run_streams(env, res, directed, env.n(600, 100000), weights={'fail': 7, 'call': 3},
                           random_monitor=flowcheck.monitor_all)
 
 
